@@ -261,6 +261,15 @@ Arguments bm_arguments {M} _.
 Arguments bm_clusters {M} _.
 Arguments bm_point_labels {M} _.
 
+(* the fields of ADMMArguments that check_convergence reads *)
+Record admm_tol_args (F : Type) : Type := mk_admm_tol_args {
+  at_absolute_tolerance : F; at_relative_tolerance : F; at_rho : F; at_verbose : bool }.
+Arguments mk_admm_tol_args {F} _ _ _ _.
+Arguments at_absolute_tolerance {F} _.
+Arguments at_relative_tolerance {F} _.
+Arguments at_rho {F} _.
+Arguments at_verbose {F} _.
+
 (* ---- facts used by every equivalence proof ---- *)
 Lemma bind_ret {A B : Type} (a : A) (f : A -> res B) : bind (Ret a) f = f a.
 Proof. reflexivity. Qed.
